@@ -101,6 +101,9 @@ func (e *Engine) nativeReplay(pkgPath string, recs []*CexRec, timeout time.Durat
 	cmd.Stdout = &out
 	cmd.Stderr = &out
 	err = cmd.Run()
+	if lf := os.Getenv("VERIF_REPLAY_LOG"); lf != "" {
+		os.WriteFile(lf, append(append([]byte{}, models...), out.Bytes()...), 0o644)
+	}
 	res := map[int]*replayOut{}
 	cur := -1
 	for _, line := range strings.Split(out.String(), "\n") {
